@@ -22,7 +22,13 @@
 (*                        vector-scalar, scalar-vector, vector-vector      *)
 (*                        one-to-one with on / ignoring                    *)
 (* Time is counted in ticks of D.unit seconds; sample values are small     *)
-(* integers; STALE is the staleness marker.                                *)
+(* integers or NAN, an ORDINARY NaN sample (value.NormalNaN, bit pattern   *)
+(* 0x7FF8000000000001: what an exporter sends for 0/0); STALE is the       *)
+(* staleness marker (0x7FF0000000000002), a different thing: a marker      *)
+(* hides a series and is never a value, a NaN sample is a value like any   *)
+(* other - it is selected, counted, is the last sample, and every operator *)
+(* has its own rule for it (transcribed from promql/functions.go and       *)
+(* engine.go of v0.50.1, see V / Cmp / RFnVal / AggVal).                   *)
 (*                                                                         *)
 (* Part 2 (state machine): Load(D) ingests a sample set (remote write);    *)
 (* AskInstant(q) = /api/v1/query; AskRange(q) + RangeStep* = one           *)
@@ -55,6 +61,7 @@ vars == <<data, cur, rs, hist>>
 view == <<data, cur, rs>>
 
 STALE == -9999
+NAN   == -8888     \* sample value code of an ordinary (non-stale) NaN
 NAME  == "__name__"
 
 -----------------------------------------------------------------------------
@@ -71,6 +78,13 @@ PInf   == [n |-> 1, d |-> 0]
 NInf   == [n |-> -1, d |-> 0]
 NaN    == [n |-> 0, d |-> 0]
 Fin(x) == x.d # 0
+IsNaN(x) == x.d = 0 /\ x.n = 0
+Num(x) == Fin(x) \/ IsNaN(x)            \* a number or NaN (no infinity)
+\* +-math.MaxFloat64 as a symbolic value: it only ever stands in a predicted answer (deviation minmax_sentinel_leaks),
+\* never flows into an operator (it is not Num)
+Huge  == [n |-> 2, d |-> 0]
+NHuge == [n |-> -2, d |-> 0]
+V(v) == IF v = NAN THEN NaN ELSE R(v)   \* the value of a sample value code
 RAdd(x, y) == IF Fin(x) /\ Fin(y) THEN Norm(x.n * y.d + y.n * x.d, x.d * y.d) ELSE NaN
 RSub(x, y) == IF Fin(x) /\ Fin(y) THEN Norm(x.n * y.d - y.n * x.d, x.d * y.d) ELSE NaN
 RMul(x, y) == IF Fin(x) /\ Fin(y) THEN Norm(x.n * y.n, x.d * y.d) ELSE NaN
@@ -86,8 +100,11 @@ ArithOps == {"add", "sub", "mul", "div"}
 CmpOps   == {"eq", "ne", "gt", "lt", "ge", "le"}
 Arith(op, x, y) == CASE op = "add" -> RAdd(x, y) [] op = "sub" -> RSub(x, y)
                      [] op = "mul" -> RMul(x, y) [] OTHER -> RDiv(x, y)
-Cmp(op, x, y) == CASE op = "eq" -> x = y [] op = "ne" -> x # y [] op = "gt" -> RLt(y, x)
-                   [] op = "lt" -> RLt(x, y) [] op = "ge" -> RLe(y, x) [] OTHER -> RLe(x, y)
+\* IEEE 754 as promql/engine.go vectorElemBinop uses it: every comparison with NaN is false, only != is true
+Cmp(op, x, y) == IF IsNaN(x) \/ IsNaN(y) THEN op = "ne"
+                 ELSE CASE op = "eq" -> x = y [] op = "ne" -> x # y [] op = "gt" -> RLt(y, x)
+                        [] op = "lt" -> RLt(x, y) [] op = "ge" -> RLe(y, x) [] OTHER -> RLe(x, y)
+OrderOps == {"gt", "lt", "ge", "le"}
 
 -----------------------------------------------------------------------------
 (* label sets: functions from a subset of the label names to non-empty values *)
@@ -166,11 +183,13 @@ Window(D, i, t, off, r, dv, src, path) ==
 
 NonStale(P) == SelectSeq(P, LAMBDA p : p[2] # STALE)
 
-\* instant selector: <<present, value>>
+\* instant selector: <<present, value code>>; only the staleness marker hides a series, an ordinary NaN sample is returned as it is
+\* mutation seed nan_hidden_like_stale: math.IsNaN instead of value.IsStaleNaN
 InstantVal(P, dv) ==
   LET Q == IF "stale_looks_through" \in dv THEN NonStale(P) ELSE P
+      Hidden(v) == v = STALE \/ ("nan_hidden_like_stale" \in dv /\ v = NAN)
   IN IF Q = <<>> THEN <<FALSE, 0>>
-     ELSE IF Q[Len(Q)][2] = STALE THEN <<FALSE, 0>> ELSE <<TRUE, Q[Len(Q)][2]>>
+     ELSE IF Hidden(Q[Len(Q)][2]) THEN <<FALSE, 0>> ELSE <<TRUE, Q[Len(Q)][2]>>
 
 -----------------------------------------------------------------------------
 (* range functions over the non-stale points P of a window [lo, hi] (ticks); U = seconds per tick *)
@@ -179,17 +198,30 @@ RFns == {"rate", "increase", "delta", "irate", "idelta", "resets", "changes", "s
          "min_over_time", "max_over_time", "count_over_time", "last_over_time", "present_over_time"}
 KeepsName(fn) == fn = "last_over_time"
 
+\* NaN samples in a window: LtV is the float comparison `a < b` over value codes (false when either is NaN)
+HasNaN(P)  == \E i \in 1..Len(P) : P[i][2] = NAN
+NumVals(P) == {P[i][2] : i \in {j \in 1..Len(P) : P[j][2] # NAN}}
+LtV(a, b)  == a # NAN /\ b # NAN /\ a < b
 RECURSIVE SumPts(_)
 SumPts(P) == IF P = <<>> THEN 0 ELSE P[1][2] + SumPts(Tail(P))
-MinPts(P) == Min({P[i][2] : i \in 1..Len(P)})
-MaxPts(P) == Max({P[i][2] : i \in 1..Len(P)})
-Resets(P)  == Cardinality({i \in 2..Len(P) : P[i][2] < P[i-1][2]})
+\* funcMinOverTime / funcMaxOverTime: min := first; for every sample f: if f < min || IsNaN(min) { min = f }  - a NaN that is
+\* not the first sample never wins a comparison, a NaN in the first place is replaced by the next sample: the answer is the
+\* extreme of the numbers of the window, NaN only if EVERY sample is NaN
+\* mutation seed minmax_first_nan_sticks: the `|| IsNaN(min)` escape is lost, a NaN in the first place is never displaced
+MinMaxPts(P, isMin, dv) ==
+  IF "minmax_first_nan_sticks" \in dv /\ P[1][2] = NAN THEN NaN
+  ELSE IF NumVals(P) = {} THEN NaN
+  ELSE R(IF isMin THEN Min(NumVals(P)) ELSE Max(NumVals(P)))
+\* funcResets: current < prev (false across a NaN); funcChanges: current != prev && !(IsNaN(current) && IsNaN(prev)), which is
+\* inequality of the value codes
+Resets(P)  == Cardinality({i \in 2..Len(P) : LtV(P[i][2], P[i-1][2])})
 Changes(P) == Cardinality({i \in 2..Len(P) : P[i][2] # P[i-1][2]})
-\* counter correction: the value before every reset is added
+\* counter correction: the value before every reset is added (a reset is current < prev: never seen across a NaN sample)
 RECURSIVE ResetSum(_)
-ResetSum(P) == IF Len(P) < 2 THEN 0 ELSE (IF P[2][2] < P[1][2] THEN P[1][2] ELSE 0) + ResetSum(Tail(P))
+ResetSum(P) == IF Len(P) < 2 THEN 0 ELSE (IF LtV(P[2][2], P[1][2]) THEN P[1][2] ELSE 0) + ResetSum(Tail(P))
 
-\* promql/functions.go extrapolatedRate
+\* promql/functions.go extrapolatedRate; last - first is NaN when the first or the last sample is NaN (and stays NaN through
+\* the factor); NaN samples in between only hide resets
 Extrapolated(P, lo, hi, r, U, isCounter, isRate, dv) ==
   LET n1      == Len(P) - 1
       firstT  == P[1][1]
@@ -207,7 +239,7 @@ Extrapolated(P, lo, hi, r, U, isCounter, isRate, dv) ==
       ext     == RAdd(RAdd(sampled, IF RLt(toStart, thr) THEN toStart ELSE half), IF RLt(toEnd, thr) THEN toEnd ELSE half)
       factor0 == RDiv(ext, sampled)
       factor  == IF isRate /\ "rate_not_per_second" \notin dv THEN RDiv(factor0, R(r * U)) ELSE factor0
-  IN RMul(R(raw), factor)
+  IN IF P[1][2] = NAN \/ P[Len(P)][2] = NAN THEN NaN ELSE RMul(R(raw), factor)
 
 \* the floating-point threshold avg*1.1 and the exact 11/10 may decide differently exactly on the edge: such cases are not generated
 KnifeEdge(P, lo, hi) ==
@@ -223,19 +255,25 @@ RFnDefined(fn, P) ==
 RFnVal(fn, P, lo, hi, r, U, dv) ==
   LET last == P[Len(P)]
       prev == P[Len(P) - 1]
+      \* mutation seed sum_skips_nan: NaN samples are left out of the sum and the mean (as the markers are)
+      S  == IF "sum_skips_nan" \in dv THEN SelectSeq(P, LAMBDA p : p[2] # NAN) ELSE P
   IN CASE fn = "rate"     -> Extrapolated(P, lo, hi, r, U, TRUE, TRUE, dv)
        [] fn = "increase" -> Extrapolated(P, lo, hi, r, U, TRUE, FALSE, dv)
        [] fn = "delta"    -> Extrapolated(P, lo, hi, r, U, FALSE, FALSE, dv)
-       [] fn = "irate"    -> RDiv(R(IF last[2] < prev[2] THEN last[2] ELSE last[2] - prev[2]), R((last[1] - prev[1]) * U))
-       [] fn = "idelta"   -> R(last[2] - prev[2])
+       \* instantValue: the last two samples; NaN - x = NaN, NaN / dt = NaN
+       [] fn = "irate"    -> IF last[2] = NAN \/ prev[2] = NAN THEN NaN
+                             ELSE RDiv(R(IF last[2] < prev[2] THEN last[2] ELSE last[2] - prev[2]), R((last[1] - prev[1]) * U))
+       [] fn = "idelta"   -> IF last[2] = NAN \/ prev[2] = NAN THEN NaN ELSE R(last[2] - prev[2])
        [] fn = "resets"   -> R(Resets(P))
        [] fn = "changes"  -> R(Changes(P))
-       [] fn = "sum_over_time"   -> R(SumPts(P))
-       [] fn = "avg_over_time"   -> Norm(SumPts(P), Len(P))
-       [] fn = "min_over_time"   -> R(MinPts(P))
-       [] fn = "max_over_time"   -> R(MaxPts(P))
+       \* funcSumOverTime / funcAvgOverTime (Kahan sum, incremental mean): one NaN sample makes the answer NaN
+       [] fn = "sum_over_time"   -> IF HasNaN(S) THEN NaN ELSE R(SumPts(S))
+       [] fn = "avg_over_time"   -> IF HasNaN(S) THEN NaN ELSE IF S = <<>> THEN NaN ELSE Norm(SumPts(S), Len(S))
+       [] fn = "min_over_time"   -> MinMaxPts(P, TRUE, dv)
+       [] fn = "max_over_time"   -> MinMaxPts(P, FALSE, dv)
+       \* a NaN sample is a sample: counted, present, and the last one
        [] fn = "count_over_time" -> R(Len(P))
-       [] fn = "last_over_time"  -> R(last[2])
+       [] fn = "last_over_time"  -> V(last[2])
        [] OTHER                  -> R(1)       \* present_over_time
 
 -----------------------------------------------------------------------------
@@ -260,22 +298,38 @@ GroupLab(lab, e, dv) ==
   CASE e.mode = "by"      -> LKeep(lab, e.ls)
     [] e.mode = "without" -> LDrop(lab, e.ls \cup (IF "without_keeps_name" \in dv THEN {} ELSE {NAME}))
     [] OTHER              -> EmptyLab
-AggVal(op, G) ==
+\* promql/engine.go aggregation: sum / avg add NaN (the answer is NaN); count counts it; min / max:
+\* `if group.floatValue > s.F || math.IsNaN(group.floatValue)` - NaN is replaced by any number, the answer is NaN only if
+\* every element of the group is NaN
+\* mutation seed agg_minmax_keeps_nan: the IsNaN escape is lost, a group with a NaN element answers NaN
+\* as implemented (F-C18-11, sentinel): a min / max that is evaluated by the executor's hash aggregation (its operand is an
+\* arithmetic / comparison or another aggregation over instant selectors; aggregations directly over a selector or over range
+\* functions are evaluated elsewhere and are right) starts from +-math.MaxFloat64 instead of the first element
+\* (engine/executor/hash_agg_func_prom.go minPromOperator / maxPromOperator): a group whose elements are all NaN never
+\* replaces the start value, the answer is +MaxFloat64 (min) / -MaxFloat64 (max)
+AggVal(op, G, dv, sentinel) ==
   LET sum == FoldSet(LAMBDA x, acc : RAdd(acc, x.v), R(0), G)
-      any == (CHOOSE x \in G : TRUE).v
+      nums == {x \in G : ~IsNaN(x.v)}
+      any == (CHOOSE x \in nums : TRUE).v
   IN CASE op = "sum"   -> sum
        [] op = "count" -> R(Cardinality(G))
        [] op = "avg"   -> RDiv(sum, R(Cardinality(G)))
-       [] op = "min"   -> FoldSet(LAMBDA x, acc : RMinOf(acc, x.v), any, G)
-       [] OTHER        -> FoldSet(LAMBDA x, acc : RMaxOf(acc, x.v), any, G)
+       [] OTHER        ->
+            IF nums = {} /\ sentinel THEN (IF op = "min" THEN Huge ELSE NHuge)
+            ELSE IF nums = {} \/ ("agg_minmax_keeps_nan" \in dv /\ nums # G) THEN NaN
+            ELSE IF op = "min" THEN FoldSet(LAMBDA x, acc : RMinOf(acc, x.v), any, nums)
+            ELSE FoldSet(LAMBDA x, acc : RMaxOf(acc, x.v), any, nums)
 
 \* vector op scalar; vecLeft = the vector is the left operand
-BinVS(e, vec, sc, vecLeft, asFilter) ==
+\* as implemented (F-C18-10, nanPass): the filter form of < <= > >= between a plain selector and a scalar is pushed down to the
+\* store, whose float filter DROPS a row when the negated comparison holds (lib/binaryfilterfunc GetFloatGTConditionBitMap:
+\* `if values[i] <= cmpData { drop }`): a NaN sample satisfies no comparison, so it is never dropped and passes the filter
+BinVS(e, vec, sc, vecLeft, asFilter, nanPass) ==
   LET A(x) == IF vecLeft THEN x.v ELSE sc
       B(x) == IF vecLeft THEN sc ELSE x.v
   IN IF e.op \in ArithOps THEN {[lab |-> DropName(x.lab), v |-> Arith(e.op, A(x), B(x))] : x \in vec}
      ELSE IF e.bool /\ ~asFilter THEN {[lab |-> DropName(x.lab), v |-> IF Cmp(e.op, A(x), B(x)) THEN R(1) ELSE R(0)] : x \in vec}
-     ELSE {x \in vec : Cmp(e.op, A(x), B(x))}
+     ELSE {x \in vec : Cmp(e.op, A(x), B(x)) \/ (nanPass /\ e.op \in OrderOps /\ IsNaN(x.v))}
 
 MatchKey(lab, e) ==
   CASE e.vm = "on"       -> LKeep(lab, e.vls)
@@ -293,10 +347,16 @@ BinVV(e, L, Rv) ==
 \* as implemented (F-C18-3): comparison `bool` whose vector operand is itself a `bool` comparison filters instead
 IsBoolCmp(e) == e.k = "bin" /\ e.op \in CmpOps /\ e.bool /\ ~IsScalar(e)
 
+\* the operand of an aggregation that openGemini evaluates by hash aggregation in the executor (see AggVal)
+RECURSIVE AllLeavesSel(_)
+AllLeavesSel(e) == CASE e.k = "sel" -> TRUE [] e.k = "rfn" -> FALSE [] e.k = "num" -> TRUE [] e.k = "agg" -> AllLeavesSel(e.arg)
+                     [] OTHER -> AllLeavesSel(e.l) /\ AllLeavesSel(e.r)
+HashAggPath(e) == e.arg.k \in {"agg", "bin"} /\ AllLeavesSel(e.arg)
+
 RECURSIVE EvalV(_, _, _, _, _, _)
 EvalV(D, e, t, dv, src, path) ==
   CASE e.k = "sel" ->
-         {[lab |-> D.series[i].lab, v |-> R(InstantVal(Window(D, i, t, e.off, 0, dv, src, path), dv)[2])] :
+         {[lab |-> D.series[i].lab, v |-> V(InstantVal(Window(D, i, t, e.off, 0, dv, src, path), dv)[2])] :
             i \in {j \in Sel(D, e, dv) : InstantVal(Window(D, j, t, e.off, 0, dv, src, path), dv)[1]}}
     [] e.k = "rfn" ->
          LET lo == WinLo(t, e.arg.off, e.r, dv)
@@ -308,14 +368,15 @@ EvalV(D, e, t, dv, src, path) ==
     [] e.k = "agg" ->
          LET arg == EvalV(D, e.arg, t, dv, src, Append(path, 1))
              keys == {GroupLab(x.lab, e, dv) : x \in arg}
-         IN {[lab |-> g, v |-> AggVal(e.op, {x \in arg : GroupLab(x.lab, e, dv) = g})] : g \in keys}
+         IN {[lab |-> g, v |-> AggVal(e.op, {x \in arg : GroupLab(x.lab, e, dv) = g}, dv,
+                                       "minmax_sentinel_leaks" \in dv /\ HashAggPath(e))] : g \in keys}
     [] OTHER ->   \* bin, at least one vector operand
          IF IsScalar(e.r) THEN
               BinVS(e, EvalV(D, e.l, t, dv, src, Append(path, 1)), EvalS(e.r), TRUE,
-                    "nested_bool_filters" \in dv /\ IsBoolCmp(e.l))
+                    "nested_bool_filters" \in dv /\ IsBoolCmp(e.l), "nan_passes_comparison" \in dv /\ e.l.k = "sel")
          ELSE IF IsScalar(e.l) THEN
               BinVS(e, EvalV(D, e.r, t, dv, src, Append(path, 2)), EvalS(e.l), FALSE,
-                    "nested_bool_filters" \in dv /\ IsBoolCmp(e.r))
+                    "nested_bool_filters" \in dv /\ IsBoolCmp(e.r), "nan_passes_comparison" \in dv /\ e.r.k = "sel")
          ELSE BinVV(e, EvalV(D, e.l, t, dv, src, Append(path, 1)), EvalV(D, e.r, t, dv, src, Append(path, 2)))
 
 Direct == [mode |-> "direct"]
@@ -332,7 +393,7 @@ SelNodes(e, path) ==
 
 ---- (* what the engines refuse or what floating point decides: such (data, query, time) are not generated *)
 Unique(vec) == \A x, y \in vec : x.lab = y.lab => x = y
-AllFin(vec) == \A x \in vec : Fin(x.v)
+AllFin(vec) == \A x \in vec : Num(x.v)      \* numbers and NaN flow into operators; infinities (x / 0) do not
 
 RECURSIVE Ok(_, _, _, _)
 Ok(D, e, t, dv) ==
@@ -376,13 +437,22 @@ MatrixOf(ts, vecs) ==
 DirectVecs(D, q, dv) == LET ts == Steps(q) IN [i \in 1..Len(ts) |-> EvalTop(D, q.e, ts[i], dv)]
 
 \* as-implemented deviation models of the open findings (known_findings.json): the answers they predict
+\* (the last entry is the combination: it is evaluated when at least two of its models are relevant, with the relevant ones only,
+\* and carries their ids in the field ids)
 KnownDevs == << <<"F-C18-1", {"empty_matcher_ignored"}>>, <<"F-C18-2", {"regex_unanchored"}>>,
                <<"F-C18-3", {"nested_bool_filters"}>>, <<"F-C18-4", {"unknown_label_ignored"}>>,
-               <<"F-C18-1+2+3+4", {"empty_matcher_ignored", "regex_unanchored", "nested_bool_filters", "unknown_label_ignored"}>> >>
+               <<"F-C18-10", {"nan_passes_comparison"}>>, <<"F-C18-11", {"minmax_sentinel_leaks"}>>,
+               <<"F-C18-combined", {"empty_matcher_ignored", "regex_unanchored", "unknown_label_ignored", "nan_passes_comparison",
+                                    "minmax_sentinel_leaks"}>> >>
+FindingOfDev(d) == CASE d = "empty_matcher_ignored" -> "F-C18-1" [] d = "regex_unanchored" -> "F-C18-2"
+                     [] d = "nested_bool_filters" -> "F-C18-3" [] d = "unknown_label_ignored" -> "F-C18-4"
+                     [] d = "nan_passes_comparison" -> "F-C18-10" [] d = "minmax_sentinel_leaks" -> "F-C18-11" [] OTHER -> "?"
 \* whether a deviation can change the answer of an expression at all (decided from the text of the expression)
 RECURSIVE SelsOf(_)
 SelsOf(e) == CASE e.k = "sel" -> {e} [] e.k = "rfn" -> {e.arg} [] e.k = "agg" -> SelsOf(e.arg)
                [] e.k = "bin" -> SelsOf(e.l) \cup SelsOf(e.r) [] OTHER -> {}
+RECURSIVE AggNodes(_)
+AggNodes(e) == CASE e.k = "agg" -> {e} \cup AggNodes(e.arg) [] e.k = "bin" -> AggNodes(e.l) \cup AggNodes(e.r) [] OTHER -> {}
 RECURSIVE BinNodes(_)
 BinNodes(e) == CASE e.k = "agg" -> BinNodes(e.arg) [] e.k = "bin" -> {e} \cup BinNodes(e.l) \cup BinNodes(e.r) [] OTHER -> {}
 DevRelevant(D, e, d) ==
@@ -392,8 +462,13 @@ DevRelevant(D, e, d) ==
     [] d = "unknown_label_ignored" -> \E s \in SelsOf(e) : \E j \in 1..Len(s.ms) : s.ms[j].l \notin KnownKeys(D, s.m)
     [] d = "nested_bool_filters"   -> \E b \in BinNodes(e) : b.op \in CmpOps /\ b.bool /\ ~IsScalar(b) /\
                                          ((IsScalar(b.r) /\ IsBoolCmp(b.l)) \/ (IsScalar(b.l) /\ IsBoolCmp(b.r)))
+    [] d = "minmax_sentinel_leaks" -> \E a \in AggNodes(e) : a.op \in {"min", "max"} /\ HashAggPath(a)
+    [] d = "nan_passes_comparison" -> \E b \in BinNodes(e) : b.op \in OrderOps /\ ~b.bool /\
+                                         ((IsScalar(b.r) /\ b.l.k = "sel") \/ (IsScalar(b.l) /\ b.r.k = "sel"))
     [] OTHER -> TRUE
 
+
+RelevantOf(D, e, k) == {d \in KnownDevs[k][2] : DevRelevant(D, e, d)}
 
 RECURSIVE RfnNodes(_)
 RfnNodes(e) == CASE e.k = "rfn" -> {e}
@@ -420,7 +495,7 @@ WellFormed(D, q) ==
   \* the predictions of the deviation models that can change the answer must be defined too
   /\ \A k \in 1..Len(KnownDevs) :
        (\E d \in KnownDevs[k][2] : DevRelevant(D, q.e, d)) =>
-          \A i \in 1..Len(Steps(q)) : OkTop(D, q.e, Steps(q)[i], Dev \cup KnownDevs[k][2])
+          \A i \in 1..Len(Steps(q)) : OkTop(D, q.e, Steps(q)[i], Dev \cup RelevantOf(D, q.e, k))
 
 \* as implemented (F-C18-7, deviation gap_sample_runaway), modelled for the sentinel shape only: a top level
 \* *_over_time(m[r]) with r < step, the epoch of the data set known, a series with ONE fetched sample that falls
@@ -442,16 +517,17 @@ RunawayExtra(D, q) ==
 
 KnownAnswers(D, q, ideal) ==
   LET ts == Steps(q)
-      NRel(i) == Cardinality({d \in KnownDevs[i][2] : DevRelevant(D, q.e, d)})
-      K(i) == LET dv == Dev \cup KnownDevs[i][2]
+      NRel(i) == Cardinality(RelevantOf(D, q.e, i))
+      K(i) == LET dv == Dev \cup RelevantOf(D, q.e, i)
                   rel == IF Cardinality(KnownDevs[i][2]) = 1 THEN NRel(i) = 1 ELSE NRel(i) >= 2
                   ok == rel /\ \A j \in 1..Len(ts) : OkTop(D, q.e, ts[j], dv)
                   vs == IF ok THEN DirectVecs(D, q, dv) ELSE ideal
-              IN [id |-> KnownDevs[i][1], differs |-> ok /\ vs # ideal,
+                  rs0 == SetToSeq(RelevantOf(D, q.e, i))
+              IN [id |-> KnownDevs[i][1], ids |-> [j \in 1..Len(rs0) |-> FindingOfDev(rs0[j])], differs |-> ok /\ vs # ideal,
                   ans |-> IF q.kind = "instant" THEN VecOut(vs[1]) ELSE MatrixOf(ts, vs)]
       ks == [i \in 1..Len(KnownDevs) |-> K(i)]
       rw == IF q.kind = "range" /\ Runaway(D, q) /\ RunawayModelled(D, q)
-              THEN <<[id |-> "F-C18-7", differs |-> TRUE, ans |-> MatrixOf(ts, ideal) \o RunawayExtra(D, q)]>> ELSE <<>>
+              THEN <<[id |-> "F-C18-7", ids |-> <<"F-C18-7">>, differs |-> TRUE, ans |-> MatrixOf(ts, ideal) \o RunawayExtra(D, q)]>> ELSE <<>>
   IN SelectSeq(ks, LAMBDA k : k.differs) \o rw
 
 -----------------------------------------------------------------------------
@@ -564,7 +640,7 @@ LawInstant ==
              lab  == data.series[i].lab
          IN IF cand = {} THEN ~Has(vec, lab)
             ELSE LET p == data.series[i].pts[Max(cand)]
-                 IN IF p[2] = STALE THEN ~Has(vec, lab) ELSE Has(vec, lab) /\ ValOf(vec, lab) = R(p[2])
+                 IN IF p[2] = STALE THEN ~Has(vec, lab) ELSE Has(vec, lab) /\ ValOf(vec, lab) = V(p[2])   \* a NaN sample is returned
 
 \* offset o at time t = no offset at time t - o
 LawOffset ==
@@ -583,21 +659,34 @@ LawMatchers ==
        /\ m.op = "re" => a = UNION {EqSel(v) : v \in RegexTab[m.v].full}
        /\ m.op = "eq" => \A i \in a : LGet(data.series[i].lab, m.l) = m.v
 
-\* *_over_time: count = number of non-stale samples in the closed window, avg * count = sum, min <= avg <= max
+\* *_over_time: count = number of non-stale samples in the closed window (NaN samples are samples); without a NaN sample
+\* avg * count = sum and min <= avg <= max; with one, sum and avg are NaN; min / max are the extremes of the NUMBERS of the
+\* window wherever the NaN samples stand (first, middle, last), and NaN only when every sample of the window is NaN;
+\* last_over_time is the last sample whatever it is
 LawOverTime ==
   (IsInst /\ E.k = "rfn" /\ E.fn = "avg_over_time") =>
     LET F(fn) == Eval(data, [E EXCEPT !.fn = fn], T, Dev)
-        avg == F("avg_over_time")
-    IN /\ \A x \in avg : /\ RMul(x.v, ValOf(F("count_over_time"), x.lab)) = ValOf(F("sum_over_time"), x.lab)
-                         /\ RLe(ValOf(F("min_over_time"), x.lab), x.v) /\ RLe(x.v, ValOf(F("max_over_time"), x.lab))
-       /\ \A i \in Sel(data, E.arg, {}) :
-            LET n == Cardinality({j \in 1..Len(data.series[i].pts) :
-                                    /\ data.series[i].pts[j][2] # STALE
-                                    /\ data.series[i].pts[j][1] <= T - E.arg.off
-                                    /\ data.series[i].pts[j][1] >= T - E.arg.off - E.r})
-                lab == DropName(data.series[i].lab)
-            IN IF n = 0 THEN ~Has(F("count_over_time"), lab)
-               ELSE Has(F("count_over_time"), lab) /\ ValOf(F("count_over_time"), lab) = R(n)
+    IN \A i \in Sel(data, E.arg, {}) :
+         LET W == {j \in 1..Len(data.series[i].pts) :
+                     /\ data.series[i].pts[j][2] # STALE
+                     /\ data.series[i].pts[j][1] <= T - E.arg.off
+                     /\ data.series[i].pts[j][1] >= T - E.arg.off - E.r}
+             n == Cardinality(W)
+             vals == {data.series[i].pts[j][2] : j \in W}
+             nums == vals \ {NAN}
+             lab == DropName(data.series[i].lab)
+             Val(fn) == ValOf(F(fn), lab)
+         IN IF n = 0 THEN \A fn \in {"count_over_time", "avg_over_time", "sum_over_time", "min_over_time", "max_over_time"} : ~Has(F(fn), lab)
+            ELSE /\ \A fn \in {"count_over_time", "avg_over_time", "sum_over_time", "min_over_time", "max_over_time"} : Has(F(fn), lab)
+                 /\ Val("count_over_time") = R(n)
+                 /\ ValOf(F("last_over_time"), data.series[i].lab) = V(data.series[i].pts[Max(W)][2])
+                 /\ IF NAN \in vals THEN IsNaN(Val("avg_over_time")) /\ IsNaN(Val("sum_over_time"))
+                    ELSE /\ RMul(Val("avg_over_time"), R(n)) = Val("sum_over_time")
+                         /\ RLe(Val("min_over_time"), Val("avg_over_time")) /\ RLe(Val("avg_over_time"), Val("max_over_time"))
+                 /\ IF nums = {} THEN IsNaN(Val("min_over_time")) /\ IsNaN(Val("max_over_time"))
+                    ELSE /\ \E v \in nums : Val("min_over_time") = R(v)
+                         /\ \E v \in nums : Val("max_over_time") = R(v)
+                         /\ \A v \in nums : RLe(Val("min_over_time"), R(v)) /\ RLe(R(v), Val("max_over_time"))
 
 \* rate = increase / range seconds; a counter that never goes negative never has a negative increase, and the
 \* extrapolation to the left never passes the zero point of the counter; the extrapolated span is at most the range
@@ -610,7 +699,8 @@ LawRate ==
        /\ \A i \in Sel(data, E.arg, {}) :
             LET P == NonStale(PtsIn(data.series[i].pts, T - E.arg.off - E.r, T - E.arg.off))
                 lab == DropName(data.series[i].lab)
-            IN (Len(P) >= 2 /\ \A j \in 1..Len(P) : P[j][2] >= 0) =>
+            IN /\ (Len(P) >= 2 /\ (P[1][2] = NAN \/ P[Len(P)][2] = NAN)) => Has(inc, lab) /\ IsNaN(ValOf(inc, lab))
+               /\ (Len(P) >= 2 /\ \A j \in 1..Len(P) : P[j][2] >= 0) =>       \* (no NaN sample: NAN < 0)
                  Has(inc, lab) /\
                  LET raw == P[Len(P)][2] - P[1][2] + ResetSum(P)
                      v == ValOf(inc, lab)
@@ -622,6 +712,17 @@ LawRate ==
 
 \* aggregation: the groups partition the operand; by(ls) and without(all other labels) coincide; the name is dropped
 AllLabs == {"job", "inst"}
+\* min / max: every group answers with the extreme of its NUMBERS; NaN only if all its elements are NaN
+LawAggMinMax ==
+  (IsInst /\ E.k = "agg" /\ E.op \in {"min", "max"}) =>
+    LET arg == Eval(data, E.arg, T, Dev)
+        res == Eval(data, E, T, Dev)
+    IN /\ {x.lab : x \in res} = {GroupLab(x.lab, E, {}) : x \in arg}
+       /\ \A g \in res :
+            LET nums == {x \in arg : GroupLab(x.lab, E, {}) = g.lab /\ ~IsNaN(x.v)}
+            IN IF nums = {} THEN IsNaN(g.v)
+               ELSE /\ \E x \in nums : g.v = x.v
+                    /\ \A x \in nums : IF E.op = "min" THEN RLe(g.v, x.v) ELSE RLe(x.v, g.v)
 LawAgg ==
   (IsInst /\ E.k = "agg" /\ E.op \in {"sum", "count"}) =>
     LET arg == Eval(data, E.arg, T, Dev)
@@ -643,6 +744,8 @@ LawCmp ==
        /\ \A x \in bl : x.v \in {R(0), R(1)}
        /\ flt \subseteq arg
        /\ \A x \in arg : (x \in flt) <=> ValOf(bl, DropName(x.lab)) = R(1)
+       \* a NaN element satisfies no comparison but != : the filter drops it, the bool form says 0
+       /\ \A x \in arg : IsNaN(x.v) => ((x \in flt) <=> E.op = "ne")
 
-Laws == LawInstant /\ LawOffset /\ LawMatchers /\ LawOverTime /\ LawRate /\ LawAgg /\ LawCmp
+Laws == LawInstant /\ LawOffset /\ LawMatchers /\ LawOverTime /\ LawRate /\ LawAgg /\ LawAggMinMax /\ LawCmp
 =============================================================================
